@@ -892,6 +892,26 @@ func runC10(e *Engine, r *Report, tier string) {
 		}
 	}
 	if chk == nil {
+		// renamed: the function taking (the disabled list, the called address, the method id) and returning an error
+		chk = e.findFn(func(f *ssa.Function) bool {
+			if f.Signature.Results().Len() != 1 || !isErrorType(f.Signature.Results().At(0).Type()) {
+				return false
+			}
+			var hasList, hasAddr, hasID bool
+			for _, p := range f.Params {
+				switch ts := p.Type().String(); {
+				case ts == "[]string":
+					hasList = true
+				case strings.HasSuffix(ts, "common.Address"):
+					hasAddr = true
+				case ts == "[]byte":
+					hasID = true
+				}
+			}
+			return hasList && hasAddr && hasID
+		})
+	}
+	if chk == nil {
 		// fallback: callee of CheckDisabledPrecompiles
 		r.Fail("R4", "switch-check", "", "UNRESOLVED-ANCHOR: governance switch comparison routine not found")
 	} else {
